@@ -318,6 +318,17 @@ def check_isomorphisms(host, pat, case, more_hosts=()):
         n_blank = len(list(itertools.islice(warm.find_isomorphisms(True), 2)))
         if n_blank != 1:
             raise Violation('sym-self', 'symmetry=True yields %d mappings of the colour-less pattern onto itself, expected 1' % n_blank)
+        # ... and by re-coloured versions of the pattern: same nodes, edges and number of nodes per colour, but the colours
+        # sit on other nodes (what consecutive residues of one type but different chemistry look like to repair_graph)
+        colours = [pat.nodes[n].get('c', 0) for n in pat.nodes]
+        if len(set(colours)) > 1:
+            order = list(pat.nodes)
+            for shift in (1, 2):
+                rec = nx.Graph()
+                rec.add_nodes_from((n, {'c': colours[(i + shift) % len(order)]}) for i, n in enumerate(order))
+                rec.add_edges_from(pat.edges(data=True))
+                list(itertools.islice(make_ismags(rec, rec, case, cache=cache).find_isomorphisms(True), 3))
+            classes.append('cache-recoloured')
         for turn in range(2):
             cached = make_ismags(host, pat, case, cache=cache)
             got_cached = list(itertools.islice(cached.find_isomorphisms(True), len(ref) + 1))
